@@ -47,13 +47,13 @@ int main(int argc, char** argv) {
     if (mode == "random") {
         int n = atoi(argv[2]); unsigned long seed0 = strtoul(argv[3], nullptr, 10); TR.open(argv[4]);
         for (int i = 5; i < argc; i++) PROG.push_back(vh::split(argv[i], ','));
-        int N = (int)PROG.size(); static const int dens[4] = {1, 3, 10, 40};
+        int N = (int)PROG.size(); static const int dens[8] = {1, 3, 10, 40, -1, -2, -3, -5};
         for (int r = 0; r < n && stuck < 10; r++) {
             TR.begin_exec();
             V* v = new V; std::vector<std::vector<Sample>> samples(N);
             Sched S; S.stall_limit = 30000; S.log_schedule = true; focus_only(false);
             S.spawn(N, [&](int t) { body(*v, t, samples[t]); });
-            int rc = S.run_random(seed0 + r, 3000000, dens[r % 4]); ++paths; steps += S.steps;
+            int rc = S.run_random(seed0 + r, 3000000, dens[r % 8]); ++paths; steps += S.steps;
             TR.sched(S.sched_log);
             if (rc != RC_OK) { ++stuck; TR.emit("{\"e\":\"Stuck\",\"rc\":\"%s\"}", rc_name(rc).c_str()); S.join_all(); continue; }
             S.join_all();
